@@ -1,5 +1,5 @@
 """C03 - every public declaration appears in the stubs exactly once."""
-from vlib.plan import CH
+from vlib.plan import CH, K
 
 FUNCTIONS = [
     "safeds_stubgen.stubs_generator._stub_string_generator:StubsStringGenerator._create_module_string",
@@ -18,10 +18,13 @@ EXPLANATION = (
     "re-export by the root package by name or with alias. All output files are parsed by the independent recogniser; "
     "the multiset of (Python module, owner path, Python name, kind) over all files must contain every declaration "
     "whose publicity chain is true exactly once - under its own module or under the re-exporting package - and nothing "
-    "unexpected."
+    "unexpected. Analyser side (registered_once): the real ASTWalker + MyPyAstVisitor on every module tree of G_ast - "
+    "each function, class, nested class, method, property (read-only and read/write), overload, class attribute "
+    "(annotated, inferred, tuple target), constructor-assigned instance attribute, enum and enum member the source "
+    "contains is registered exactly once with its owner; repeated assignments register no second attribute."
 )
 ASSUMPTIONS = [
-    "generator side only in this round: the analyser side (walker/visitor registration) needs the mypy shim (DESIGN 3.3)",
+    "analyser side: the real walker+visitor on the validated mypy shim over the module-tree grammar G_ast (harness/gast.py)",
     "a declaration re-exported under an alias counts as present under the alias in the re-exporting package",
     "members of a class that is itself missing are not reported separately",
 ]
@@ -30,8 +33,7 @@ BOUNDS = {"quick": "attribute and method flag combinations from 4 presets each; 
 MANIFEST = {
     "text": "Bounded symbolic (generator side): for every flag combination within the bound the emitted declaration "
             "multiset equals the model's public declarations; CrossHair partitions end in 'Confirmed over all paths'.",
-    "note": "Trusted: CrossHair/z3, the recogniser. The analyser half of the property (registration of declarations by "
-            "walker/visitor) is not covered in this round. Known findings: exception classes and TypeVar-typed "
+    "note": "Trusted: CrossHair/z3, the recogniser. Known findings: exception classes and TypeVar-typed "
             "attributes are omitted.",
     "technique": "CrossHair symbolic execution of the real generator, declaration-multiset oracle over recognised output",
 }
@@ -41,5 +43,12 @@ def plan(tier):
     t = 300 if tier == "quick" else 2400
     parts = [f"0:{c},1:{d},2:{r},3:{pf},4:{pc}" for c in range(2) for d in range(2) for r in range(3) for pf in range(2) for pc in range(2)
              if tier == "thorough" or not (d == 1 and r == 0)]
-    return [CH("exactly_once", "harness.c03", "exactly_once", parts, timeout=t, desc="declaration multiset = public declarations",
-               bounds=BOUNDS[tier], stubs=["in-memory FS"], symbolic="publicity/shape flags")]
+    wparts = ["0:0,1:0", "0:1,1:0"] + [f"0:{d},1:{n},2:{k}" for d in range(2) for n in (1, 2) for k in range(6)]
+    return [
+        CH("exactly_once", "harness.c03", "exactly_once", parts, timeout=t, desc="declaration multiset = public declarations",
+           bounds=BOUNDS[tier], stubs=["in-memory FS"], symbolic="publicity/shape flags"),
+        K("conformance", "harness.walk", "conformance_job", "shim builders vs real mypy", timeout=1200),
+        CH("registered_once", "harness.walk", "registered_once", wparts, timeout=400 if tier == "quick" else 3000,
+           desc="analyser side: every declaration of the source registered exactly once with its owner",
+           stubs=["mypy node classes -> validated shim"], symbolic="module-tree selectors"),
+    ]
